@@ -4,6 +4,7 @@ package cl
 
 import (
 	"io"
+	"unicode/utf8"
 
 	"github.com/ohler55/slip"
 )
@@ -96,10 +97,18 @@ func (f *Read) wrapRead(s *slip.Scope, r io.Reader, eofp bool, eofv slip.Object,
 			return code[0]
 		}
 	} else {
-		// The stream is not seekable so nothing read ahead can be given
-		// back. Feed the block reader one byte at a time, it stops with the
-		// byte that completes the first form.
-		if code, _ := slip.ReadStream(&byteReader{r: r}, s, true); 0 < len(code) {
+		// The stream is not seekable. Feed the block reader one byte at a
+		// time, it stops with the byte that completes the first form.
+		br := byteReader{r: r}
+		if code, pos := slip.ReadStream(&br, s, true); 0 < len(code) {
+			// A token ends with the byte behind it. That byte, a delimiter
+			// such as a space or a parenthesis, is not part of the form so it
+			// is given back when the stream can take it.
+			if pos < br.cnt && br.last < utf8.RuneSelf {
+				if rp, ok := r.(interface{ PushRune(r rune) }); ok {
+					rp.PushRune(rune(br.last))
+				}
+			}
 			return code[0]
 		}
 	}
@@ -111,12 +120,18 @@ func (f *Read) wrapRead(s *slip.Scope, r io.Reader, eofp bool, eofv slip.Object,
 
 // byteReader hands out the wrapped stream one byte per read.
 type byteReader struct {
-	r io.Reader
+	r    io.Reader
+	cnt  int  // bytes handed out
+	last byte // the last byte handed out
 }
 
-func (br *byteReader) Read(p []byte) (int, error) {
+func (br *byteReader) Read(p []byte) (n int, err error) {
 	if len(p) == 0 {
 		return 0, nil
 	}
-	return br.r.Read(p[:1])
+	if n, err = br.r.Read(p[:1]); 0 < n {
+		br.cnt += n
+		br.last = p[0]
+	}
+	return
 }
